@@ -1116,7 +1116,9 @@ Section Main.
       { unfold ienode. destruct (v_tokens_factory var); cbn [RoundtripGen.e_item]; unfold RoundtripGen.e_prim; eauto. }
       apply (item_ok_inv var y Hyn) in Hok. unfold ienode in *.
       destruct (v_tokens_factory var) as [tf|] eqn:Etf; [unfold RoundtripGen.e_prim; eauto|].
-      destruct (wf_elem_inv var Hw) as [_ [_ [[k [Hty [Hcl _]]]|[[t [Hty [Hst _]]]|[Hty _]]]]].
+      destruct (wf_elem_inv var Hw) as [_ [_ [[k [Hty [Hcl _]]]|[[t [Hty [Hst _]]]|[[Hty _]|[Hty _]]]]]].
+      4:{ destruct (fits_item_any c u ok _ var y Hty Hok) as [sx [-> _]].
+          cbn [RoundtripGen.e_item]. unfold RoundtripGen.e_prim. eauto. }
       - destruct (fits_item_class c u ok _ var k y Hty Hok) as [cl' [fs' [-> [[-> Hfk]|[_ Hfk]]]]];
           cbn [RoundtripGen.e_item]; (destruct n as [|n']; [discriminate Hfk|]);
           destruct (fits_inv c u ok py_isspace n' _ _ Hfk) as [fs'' [mk [E [Hmk _]]]]; inversion E; subst;
@@ -1195,25 +1197,25 @@ Section Main.
     Qed.
 
     Lemma build_node_prim var ns pos asg wr :
-      is_elem_var var -> v_clazz var = None ->
+      is_elem_var var -> v_clazz var = None -> is_object var = false ->
       build_node c u (enW asg wr) (v_qname var) var [] ns pos = ROk (Some (NPrimitive m var ns)).
     Proof.
-      intros Hv Hcl. pose proof Hv as [Hw _].
+      intros Hv Hcl Hobj. pose proof Hv as [Hw _].
       destruct (elem_var_facts var Hv) as [Hi [Hwl _]].
       destruct (wf_elem_inv var Hw) as [_ [Hc _]]. destruct (var_common_inv var Hc) as [_ [_ [Hany _]]].
       unfold build_node, v_is_clazz_union. rewrite Hcl. unfold Parser.xsi_type_of. cbn [assoc truthy_str rbind].
-      rewrite Hany, Hwl. reflexivity.
+      rewrite Hany, Hobj, Hwl. reflexivity.
     Qed.
 
     Lemma build_node_prim_attrs var attrs ns pos asg wr :
-      is_elem_var var -> v_clazz var = None -> assoc XSI_TYPE attrs = None ->
+      is_elem_var var -> v_clazz var = None -> is_object var = false -> assoc XSI_TYPE attrs = None ->
       build_node c u (enW asg wr) (v_qname var) var attrs ns pos = ROk (Some (NPrimitive m var ns)).
     Proof.
-      intros Hv Hcl Hxt. pose proof Hv as [Hw _].
+      intros Hv Hcl Hobj Hxt. pose proof Hv as [Hw _].
       destruct (elem_var_facts var Hv) as [Hi [Hwl _]].
       destruct (wf_elem_inv var Hw) as [_ [Hc _]]. destruct (var_common_inv var Hc) as [_ [_ [Hany _]]].
       unfold build_node, v_is_clazz_union. rewrite Hcl. unfold Parser.xsi_type_of. rewrite Hxt. cbn [truthy_str rbind].
-      rewrite Hany, Hwl. reflexivity.
+      rewrite Hany, Hobj, Hwl. reflexivity.
     Qed.
 
     Lemma build_node_class var k mk attrs ns pos asg wr :
@@ -1254,6 +1256,25 @@ Section Main.
       rewrite Hmc', Hsub. reflexivity.
     Qed.
 
+    Lemma reads_prim0 var y t a :
+      vshape t (v_format var) y -> reads (e_prim var y) a ->
+      exists ns tail, blank_o tail = true
+        /\ a = [PStart (v_qname var) [] ns;
+                PEnd (v_qname var) (match y_text (v_format var) y with [] => None | s => Some s end) tail].
+    Proof.
+      intros Hs Hr. assert (Ene : nil_attr_e var y = []) by (destruct Hs; reflexivity).
+      unfold RoundtripGen.e_prim in Hr. rewrite Ene in Hr. cbn [reads] in Hr.
+      destruct Hr as [attrs [ns [text [tail [kes [Ha [Hra [Htl Hk]]]]]]]]. destruct Hra as [_ [Hlen _]].
+      rewrite clark_split in Ha. destruct attrs; [|discriminate Hlen].
+      destruct (e_data_spec c u ok t _ y Hs) as [Hd Hat]. rewrite Hd in Hk.
+      exists ns, tail. split; [exact Htl|].
+      destruct (y_text (v_format var) y) as [|ch s] eqn:Ey.
+      - destruct Hk as [-> ->]. exact Ha.
+      - destruct Hk as [s' [Hs' [_ [-> ->]]]].
+        apply (atoms_read_plain ns _ s' (e_atoms_vshape_plain c u ok t _ y Hs)) in Hs'.
+        rewrite Hat in Hs'. inversion Hs' as [Es]. rewrite <- Es in Ha. exact Ha.
+    Qed.
+
     Lemma reads_prim var y t a :
       v_types var = [t] -> vshape t (v_format var) y -> reads (e_prim var y) a ->
       exists ns tail, blank_o tail = true
@@ -1275,7 +1296,7 @@ Section Main.
 
     (* a primitive / token element *)
     Lemma prim_item_run var y t a asg wr wo Q objs W rest :
-      is_elem_var var -> v_clazz var = None -> v_types var = [t] ->
+      is_elem_var var -> v_clazz var = None -> v_types var = [t] -> simple_type t = true ->
       vshape t (v_format var) y -> tokens_agree var y ->
       (y_text (v_format var) y = [] -> exists p, y = VP p /\ empty_ok c u var p = true) ->
       (v_factory var = None -> ~ In (v_index var) asg) -> wrap_agrees var wo ->
@@ -1283,11 +1304,12 @@ Section Main.
       prun (mk_pstate (ctx wo ++ NElement (enW asg wr) :: Q) objs W) (a ++ rest)
       = prun (mk_pstate (ctx wo ++ NElement (enW (asg_after var asg) (wr_after var wo wr)) :: Q) (objs ++ [(Some (v_qname var), y)]) W) rest.
     Proof.
-      intros Hv Hcl Ht Hs Htk Hemp Hasg Hag Hr. pose proof Hv as [Hw _].
+      intros Hv Hcl Ht Hst Hs Htk Hemp Hasg Hag Hr. pose proof Hv as [Hw _].
       destruct (reads_prim var y t a Ht Hs Hr) as [ns [tail [Htl ->]]].
       cbn [app].
+      assert (Hobj : is_object var = false) by (unfold is_object; rewrite Ht; destruct t; try reflexivity; discriminate Hst).
       rewrite (run_step cfg c u replay root _ _ _ _
-                 (start_child var [] ns asg wr wo Q objs W _ Hv Hasg Hag (build_node_prim var ns (length objs) asg wr Hv Hcl))).
+                 (start_child var [] ns asg wr wo Q objs W _ Hv Hasg Hag (build_node_prim var ns (length objs) asg wr Hv Hcl Hobj))).
       destruct (wf_class_inv m Hwc) as [F1 F2 F3 F4 F5 F6 F7 F8 F9 F10 F11 F12 F13].
       apply run_step. cbn [Parser.step pend st_queue st_objects st_warn].
       unfold primitive_bind.
@@ -1391,8 +1413,9 @@ Section Main.
       rewrite clark_split in Ha. destruct attrs; [|discriminate Hlen].
       destruct Hk as [s [Hs [Hne [-> ->]]]]. cbn [atoms_read] in Hs. subst a.
       cbn [app].
+      assert (Hobj : is_object var = false) by (unfold is_object; rewrite Ht; reflexivity).
       rewrite (run_step cfg c u replay root _ _ _ _
-                 (start_child var [] ns asg wr wo Q objs W _ Hv Hasg Hag (build_node_prim var ns (length objs) asg wr Hv Hcl))).
+                 (start_child var [] ns asg wr wo Q objs W _ Hv Hasg Hag (build_node_prim var ns (length objs) asg wr Hv Hcl Hobj))).
       destruct (wf_class_inv m Hwc) as [F1 F2 F3 F4 F5 F6 F7 F8 F9 F10 F11 F12 F13].
       destruct (wf_elem_inv var Hw) as [_ [Hc _]]. destruct (var_common_inv var Hc) as [_ [_ [_ [Hn _]]]].
       apply run_step. cbn [Parser.step pend st_queue st_objects st_warn].
@@ -1409,6 +1432,35 @@ Section Main.
     Proof.
       destruct tl as [s0|]; [|reflexivity]. cbn [blank_o normalize_content]. intros H.
       unfold py_strip. rewrite (strip_all py_isspace s0 (blank_py s0 H)). reflexivity.
+    Qed.
+
+    (* an xs:anyType element holding a str: no class is named like the element, a WildcardNode hands the
+       raw text back *)
+    Lemma any_item_run var sx a asg wr wo Q objs W rest :
+      is_elem_var var -> any_elem var -> leaf_ok TStr (v_format var) (PStr sx) = true ->
+      (v_factory var = None -> ~ In (v_index var) asg) -> wrap_agrees var wo ->
+      reads (e_prim var (VP (PStr sx))) a ->
+      prun (mk_pstate (ctx wo ++ NElement (enW asg wr) :: Q) objs W) (a ++ rest)
+      = prun (mk_pstate (ctx wo ++ NElement (enW (asg_after var asg) (wr_after var wo wr)) :: Q)
+                        (objs ++ [(Some (v_qname var), VP (PStr sx))]) W) rest.
+    Proof.
+      intros Hv Hae Hlf Hasg Hag Hr. pose proof Hv as [Hw Hin].
+      destruct Hae as [Hty [Hcl [Htf [Hfac [Hnl [Hdf [Hsq Hat]]]]]]].
+      destruct (reads_prim0 var (VP (PStr sx)) TStr a (vs_leaf _ _ _ _ _ _ Hlf) Hr) as [ns [tail [Htl ->]]].
+      cbn [app].
+      pose proof (wfr_any u cl m _ var Hwfcl Hmcl Hin (or_introl eq_refl) Hty) as Hfree.
+      destruct (elem_var_facts var Hv) as [Hi [Hwl _]].
+      assert (Hb : build_node c u (enW asg wr) (v_qname var) var [] ns (length objs) = ROk (Some (NWildcard var [] ns (length objs)))).
+      { unfold build_node, v_is_clazz_union. rewrite Hcl.
+        unfold Parser.xsi_type_of. cbn [assoc truthy_str rbind]. rewrite Hat, Hwl. cbn [negb andb].
+        unfold ctx_find_type, ctx_find_types. rewrite Hfree.
+        destruct (c_from_qname c (v_qname var)); destruct (negb (str_eqb (v_process_contents var) s_skip)); reflexivity. }
+      rewrite (run_step cfg c u replay root _ _ _ _ (start_child var [] ns asg wr wo Q objs W _ Hv Hasg Hag Hb)).
+      apply run_step. cbn [Parser.step pend st_queue st_objects st_warn].
+      unfold wildcard_bind. rewrite skipn_all, firstn_all.
+      cbn [map parse_any_attributes]. rewrite (normalize_blank tail Htl), Hwl, Hnl, str_eqb_refl.
+      cbn [is_some negb orb].
+      destruct sx as [|ch sx']; reflexivity.
     Qed.
 
     Lemma xsi_type_not_nil : str_eqb XSI_TYPE XSI_NIL = false.
@@ -1458,6 +1510,7 @@ Section Main.
       rewrite (run_step cfg c u replay root _ _ _ _
                  (start_child var _ ns asg wr wo Q objs W _ Hv Hasg Hag
                     (build_node_prim_attrs var [(XSI_NIL, EventGen.TRUE_STR)] ns (length objs) asg wr Hv Hcl
+                       ltac:(unfold is_object; rewrite Ht; destruct t; try reflexivity; discriminate Hst)
                        ltac:(cbn [assoc]; rewrite xsi_type_not_nil; reflexivity)))).
       destruct (wf_class_inv m Hwc) as [F1 F2 F3 F4 F5 F6 F7 F8 F9 F10 F11 F12 F13].
       apply run_step. cbn [Parser.step pend st_queue st_objects st_warn].
@@ -1477,7 +1530,11 @@ Section Main.
       destruct Hcase as [->|Hyn].
       { destruct Hok as [Hnl [Hdn Hncl]]. apply (nil_item_run var a asg wr wo Q objs W rest Hv Hnl Hdn Hncl Hasg Hag Hr). }
       apply (item_ok_inv var y Hyn) in Hok. unfold ienode in Hr.
-      destruct (wf_elem_inv var Hw) as [_ [_ [[k [Hty [Hcl Htf]]]|[[t [Hty [Hst Hcl]]]|[Hty [Hcl Htf]]]]]].
+      destruct (wf_elem_inv var Hw) as [_ [_ [[k [Hty [Hcl Htf]]]|[[t [Hty [Hst Hcl]]]|[[Hty [Hcl Htf]]|Hae]]]]].
+      4:{ pose proof Hae as [Hty [_ [Htf _]]]. rewrite Htf in *.
+          destruct (fits_item_any c u ok _ var y Hty Hok) as [sx [-> [Hlf _]]].
+          cbn [RoundtripGen.e_item] in Hr.
+          apply (any_item_run var sx a asg wr wo Q objs W rest Hv Hae Hlf Hasg Hag Hr). }
       3:{ rewrite Htf in *. destruct (fits_item_qname c u ok _ var y Hty Hok) as [q1 [-> [Hokq Hq]]].
           cbn [RoundtripGen.e_item] in Hr.
           apply (qprim_item_run var q1 a asg wr wo Q objs W rest Hv Hcl Hty Htf Hokq Hq Hasg Hag Hr). }
@@ -1491,14 +1548,14 @@ Section Main.
             cbn [forallb] in Htk. apply andb_true_iff in Htk as [H1 _].
             destruct (token_ok_inv c u ok t _ y1 H1) as [p [-> [_ [Hne' _]]]].
             cbn [map] in Hy. apply (join_nonempty _ (map (x_text c u (v_format var)) l') Hne'). exact Hy. }
-          apply (prim_item_run var (VList tp l) t a asg wr wo Q objs W rest Hv Hcl Hty Hsh Hagt Hemp Hasg Hag Hr).
+          apply (prim_item_run var (VList tp l) t a asg wr wo Q objs W rest Hv Hcl Hty Hst Hsh Hagt Hemp Hasg Hag Hr).
         + destruct (fits_item_simple c u ok _ var t y Hty Hst Hok) as [p [-> Hp]].
           assert (Hsh : vshape t (v_format var) (VP p)) by (apply vs_leaf; exact Hp).
           assert (Hemp : y_text (v_format var) (VP p) = [] -> exists p0, VP p = VP p0 /\ empty_ok c u var p0 = true).
           { intros _. exists p. split; [reflexivity|].
             unfold Fits.fits_item, vtype in Hok. rewrite Hty in Hok.
             destruct t; try discriminate Hst; apply andb_true_iff in Hok as [_ Hok]; exact Hok. }
-          apply (prim_item_run var (VP p) t a asg wr wo Q objs W rest Hv Hcl Hty Hsh Etf Hemp Hasg Hag Hr).
+          apply (prim_item_run var (VP p) t a asg wr wo Q objs W rest Hv Hcl Hty Hst Hsh Etf Hemp Hasg Hag Hr).
     Qed.
 
     Lemma reads_kids_cons k r kes : reads_kids (k :: r) kes <-> exists a b, kes = a ++ b /\ reads k a /\ reads_kids r b.
@@ -1725,10 +1782,11 @@ Section Main.
         apply andb_true_iff in Hfv as [_ Hfl]. rewrite forallb_forall in Hfl. specialize (Hfl x Hil).
         assert (Ho : occ var x = [x]).
         { unfold occ. rewrite Htf.
-          destruct (wf_elem_inv var Hwe) as [_ [_ [[k [Hty _]]|[[t0 [Hty [Hst _]]]|[Hty _]]]]].
+          destruct (wf_elem_inv var Hwe) as [_ [_ [[k [Hty _]]|[[t0 [Hty [Hst _]]]|[[Hty _]|[Hty _]]]]]].
           - destruct (fits_item_class c u ok _ var k x Hty Hfl) as [cl' [fs' [-> _]]]. reflexivity.
           - destruct (fits_item_simple c u ok _ var t0 x Hty Hst Hfl) as [p [-> _]]. reflexivity.
-          - destruct (fits_item_qname c u ok _ var x Hty Hfl) as [q1 [-> _]]. reflexivity. }
+          - destruct (fits_item_qname c u ok _ var x Hty Hfl) as [q1 [-> _]]. reflexivity.
+          - destruct (fits_item_any c u ok _ var x Hty Hfl) as [sx [-> _]]. reflexivity. }
         rewrite Ho. split; [exact Hv|split].
         + constructor; [|constructor]. apply (item_ok_item var x Htf Hfl).
         + intros _. cbn. lia.
